@@ -433,6 +433,14 @@ func (in *Interp) builtin(s *State, th *Thread, f *Frame, name string, at ssa.In
 		}
 	case "print", "println":
 		return nil, nil
+	case "Sizeof", "Alignof":
+		call := at.(*ssa.Call)
+		sz := types.SizesFor("gc", "amd64")
+		t := call.Call.Args[0].Type()
+		if name == "Sizeof" {
+			return ts.Const(64, uint64(sz.Sizeof(t))), nil
+		}
+		return ts.Const(64, uint64(sz.Alignof(t))), nil
 	case "String": // unsafe.String(ptr, len)
 		p := args[0].(*Ptr)
 		n := args[1].(*term.Term)
